@@ -71,5 +71,8 @@ CBDoc(w) == <<80, 97, 99, 107, 97, 103, 101>> \o w \o <<COLON, SP, 97, LF>> \o <
             \o <<80, 97, 99, 107, 97, 103, 101>> \o w \o <<COLON, SP, 98, LF>> \o <<88>> \o w \o <<COLON, LF>>
 ColonBlankV == {[k |-> "colonblank", doc |-> CBDoc(w), plain |-> CBDoc(<<>>)] : w \in {<<SP>>, <<TAB>>, <<SP, SP>>, <<SP, TAB>>}}
 
-ASSUME Emit(SetToSeq(ColonBlankV) \o SetToSeq(SrcFaultV) \o SetToSeq(HdrV) \o SetToSeq(VAcc \cup WildV \cup ByHashV \cup GetDscV \cup CompV \cup XzV \cup LoadFileV \cup FileV) \o SetToSeq(ArchsV))
+\* 11. the reflection API outside its documents' use
+ApiV == {[k |-> "api", case |-> c] : c \in ApiCases}
+
+ASSUME Emit(SetToSeq(ApiV) \o SetToSeq(ColonBlankV) \o SetToSeq(SrcFaultV) \o SetToSeq(HdrV) \o SetToSeq(VAcc \cup WildV \cup ByHashV \cup GetDscV \cup CompV \cup XzV \cup LoadFileV \cup FileV) \o SetToSeq(ArchsV))
 =============================================================================
